@@ -604,10 +604,16 @@ func (s *Solver) GetValues(ts []*Term) ([]uint64, error) {
 		p.write(sb.String() + "\n")
 	} else {
 		if s.main == nil {
-			return nil, fmt.Errorf("get-value: no live solver holds a model")
+			// the solver that answered is gone (killed after a timeout): re-decide with the portfolio
+			if s.checkAux() != RSat || s.auxLive == nil {
+				return nil, fmt.Errorf("get-value: no live solver holds a model")
+			}
+			p = s.auxLive
+			p.write(sb.String() + "\n")
+		} else {
+			p = s.main
+			s.raw(sb.String())
 		}
-		p = s.main
-		s.raw(sb.String())
 	}
 	// read balanced s-expression
 	var buf strings.Builder
@@ -637,6 +643,129 @@ func (s *Solver) GetValues(ts []*Term) ([]uint64, error) {
 		}
 	}
 	return parseValues(buf.String(), len(ts))
+}
+
+// GetArray returns the model of an array-sorted term as a default byte plus
+// explicit entries, when the solver prints it as stores over a constant array.
+func (s *Solver) GetArray(t *Term) (def uint64, entries map[uint64]uint64, err error) {
+	q := "(get-value (" + s.ref(t) + "))"
+	var p *proc
+	if s.auxLive != nil {
+		p = s.auxLive
+		p.write(q + "\n")
+	} else {
+		if s.main == nil {
+			if s.checkAux() != RSat || s.auxLive == nil {
+				return 0, nil, fmt.Errorf("get-value: no live solver holds a model")
+			}
+			p = s.auxLive
+			p.write(q + "\n")
+		} else {
+			p = s.main
+			s.raw(q)
+		}
+	}
+	var buf strings.Builder
+	depth := 0
+	started := false
+	for {
+		line, ok, timedOut := p.read(60 * time.Second)
+		if !ok || timedOut {
+			return 0, nil, fmt.Errorf("get-value: solver pipe closed")
+		}
+		if strings.HasPrefix(line, "(error") {
+			return 0, nil, fmt.Errorf("get-value: %s", line)
+		}
+		buf.WriteString(line)
+		buf.WriteString(" ")
+		for _, c := range line {
+			if c == '(' {
+				depth++
+				started = true
+			} else if c == ')' {
+				depth--
+			}
+		}
+		if started && depth <= 0 {
+			break
+		}
+	}
+	toks := tokenize(buf.String())
+	// ( ( name ARR ) )
+	if len(toks) < 4 || toks[0] != "(" || toks[1] != "(" {
+		return 0, nil, fmt.Errorf("array model: unexpected shape")
+	}
+	i := 3 // after the name
+	entries = map[uint64]uint64{}
+	lit := func() (uint64, bool) {
+		if i >= len(toks) {
+			return 0, false
+		}
+		tok := toks[i]
+		switch {
+		case strings.HasPrefix(tok, "#x"):
+			v, e := strconv.ParseUint(tok[2:], 16, 64)
+			i++
+			return v, e == nil
+		case strings.HasPrefix(tok, "#b"):
+			v, e := strconv.ParseUint(tok[2:], 2, 64)
+			i++
+			return v, e == nil
+		case tok == "(" && i+3 < len(toks) && toks[i+1] == "_" && strings.HasPrefix(toks[i+2], "bv"):
+			v, e := strconv.ParseUint(toks[i+2][2:], 10, 64)
+			i += 5
+			return v, e == nil
+		}
+		return 0, false
+	}
+	var parse func() bool
+	parse = func() bool {
+		if i >= len(toks) || toks[i] != "(" {
+			return false
+		}
+		if i+2 < len(toks) && toks[i+1] == "(" && toks[i+2] == "as" {
+			// ((as const (Array ...)) v)
+			i++ // at inner "("
+			d := 0
+			for i < len(toks) {
+				if toks[i] == "(" {
+					d++
+				} else if toks[i] == ")" {
+					d--
+				}
+				i++
+				if d == 0 {
+					break
+				}
+			}
+			v, ok := lit()
+			if !ok || i >= len(toks) || toks[i] != ")" {
+				return false
+			}
+			i++
+			def = v
+			return true
+		}
+		if i+1 < len(toks) && toks[i+1] == "store" {
+			i += 2
+			if !parse() {
+				return false
+			}
+			idx, ok1 := lit()
+			val, ok2 := lit()
+			if !ok1 || !ok2 || i >= len(toks) || toks[i] != ")" {
+				return false
+			}
+			i++
+			entries[idx] = val
+			return true
+		}
+		return false
+	}
+	if !parse() {
+		return 0, nil, fmt.Errorf("array model: not a store chain over a constant array")
+	}
+	return def, entries, nil
 }
 
 func parseValues(txt string, n int) ([]uint64, error) {
